@@ -117,6 +117,16 @@ def e2e_scenario(bins, idx, ntargets, rng, kinds=None):
         for (tp, stream) in written:
             hdr = (STDOUT_HDR if stream == "stdout" else STDERR_HDR) % (tp, "build")
             headers[(tp, stream)] = hdr.encode()
+        # filtered log show: stream and target filters
+        tlist = sorted({tp for (tp, _s) in written})
+        filt_specs = [(["--stdout"], lambda tp, s: s == "stdout"),
+                      (["--stderr", "-t", tlist[0]], lambda tp, s: s == "stderr" and tp == tlist[0]),
+                      (["--stdout", "--stderr", "-c", "build", "-t"] + tlist[:2], lambda tp, s: tp in tlist[:2]),
+                      (["--stdout", "--stderr", "-c", "nosuchcommand"], lambda tp, s: False)]
+        filt_out = []
+        for fargs, adm in filt_specs:
+            fr = fx.monorail(["log", "show"] + fargs, timeout=240)
+            filt_out.append((fr["stdout"], adm))
         for (tp, stream), (data, kind) in sorted(written.items()):
             h = hashlib.sha256(tp.encode()).hexdigest()
             stored = None
@@ -141,7 +151,18 @@ def e2e_scenario(bins, idx, ntargets, rng, kinds=None):
                 if pos >= 0:
                     rest = shown[pos + len(hdr):]
                     show_eq = rest.startswith(data) and (len(rest) == len(data) or any(rest[len(data):].startswith(h2) for h2 in headers.values()))
-            tasks.append({"target": runlib.P(tp), "stream": stream, "kind": kind, "ran": True, "written_len": len(data),
+            filters_ok = True
+            if data:
+                hdr = headers[(tp, stream)]
+                for fout, adm in filt_out:
+                    pos = fout.find(hdr)
+                    if adm(tp, stream):
+                        rest = fout[pos + len(hdr):] if pos >= 0 else b""
+                        if pos < 0 or not rest.startswith(data):
+                            filters_ok = False
+                    elif pos >= 0:
+                        filters_ok = False
+            tasks.append({"target": runlib.P(tp), "stream": stream, "kind": kind, "ran": True, "written_len": len(data), "filters_ok": filters_ok,
                           "stored_len": len(stored) if stored is not None else -1, "stored_equal": eq, "first_diff": first_diff,
                           "foreign": foreign, "shown": shown_flag, "show_equal": show_eq})
         return {"ev": "e2e", "scenario": idx, "rc": res["rc"] if res["rc"] is not None else -9, "want_rc": 0, "tasks": tasks,
